@@ -138,6 +138,8 @@ structure NameParts (s B X : Bytes) : Prop where
   up : (upper s = B ∧ X = []) ∨ upper s = B ++ 46 :: X
   noDotB : 46 ∉ B
   noDotX : 46 ∉ X
+  noSlashB : 47 ∉ B
+  noSlashX : 47 ∉ X
   rngB : ∀ c ∈ B, 32 ≤ c ∧ c < 127
   rngX : ∀ c ∈ X, 32 ≤ c ∧ c < 127
   lenB : 1 ≤ B.length ∧ B.length ≤ 8
@@ -145,6 +147,12 @@ structure NameParts (s B X : Bytes) : Prop where
   /-- the name as given: made of valid characters and dots, at most 12 bytes -/
   chars : ∀ c ∈ s, c = 46 ∨ charOk c = true
   lenS : 1 ≤ s.length ∧ s.length ≤ 12
+
+theorem charOk_ne47 {c : Nat} (h : charOk c = true) : c ≠ 47 := by
+  intro e
+  subst e
+  revert h
+  decide
 
 theorem charOk_bounds' {c : Nat} (h : charOk c = true) : 32 ≤ c ∧ c < 127 ∧ c ≠ 46 := by
   have h46 : c ≠ 46 := by
@@ -170,6 +178,8 @@ theorem upper_cons (c : Nat) (l : Bytes) : upper (c :: l) = upperByte c :: upper
 
 theorem nameParts_of_valid {s : Bytes} (h : isNameValid s = true) : ∃ B X, NameParts s B X := by
   have h46 : ∀ l : Bytes, 46 ∉ l → 46 ∉ upper l := fun l hl hm => hl ((mem_upper_iff (by omega) (by omega) l).mp hm)
+  have h47 : ∀ l : Bytes, (∀ c ∈ l, charOk c = true) → 47 ∉ upper l := fun l hl hm =>
+    charOk_ne47 (hl 47 ((mem_upper_iff (by omega) (by omega) l).mp hm)) rfl
   rcases exists_split s with hs | ⟨b, x, hs, hb⟩
   · -- no dot
     have hsp := splitOn_not_mem 46 s hs
@@ -180,7 +190,7 @@ theorem nameParts_of_valid {s : Bytes} (h : isNameValid s = true) : ∃ B X, Nam
       Bool.and_eq_true, decide_eq_true_eq, List.all_eq_true] at h
     have h' : ((∀ c ∈ s, charOk c = true) ∧ 1 ≤ s.length) ∧ s.length ≤ 8 :=
       ⟨⟨h.1.1.1, of_decide_eq_true h.1.1.2⟩, of_decide_eq_true h.1.2⟩
-    refine ⟨upper s, [], Or.inl ⟨rfl, rfl⟩, h46 s hs, by simp, upper_rng (fun c hc => ?_), by simp, by rw [upper_length]; omega, by simp,
+    refine ⟨upper s, [], Or.inl ⟨rfl, rfl⟩, h46 s hs, by simp, h47 s h'.1.1, by simp, upper_rng (fun c hc => ?_), by simp, by rw [upper_length]; omega, by simp,
       fun c hc => Or.inr (h'.1.1 c hc), by omega⟩
     have := charOk_bounds' (h'.1.1 c hc)
     omega
@@ -206,6 +216,7 @@ theorem nameParts_of_valid {s : Bytes} (h : isNameValid s = true) : ∃ B X, Nam
     have h' : (((∀ c, c ∈ b ∨ c ∈ x → charOk c = true) ∧ 1 ≤ b.length) ∧ b.length ≤ 8) ∧ x.length ≤ 3 :=
       ⟨⟨⟨h.1.1.1, of_decide_eq_true h.1.1.2⟩, of_decide_eq_true h.1.2⟩, h.2⟩
     refine ⟨upper b, upper x, Or.inr (by rw [hs, upper_append, upper_cons]; rfl), h46 b hb, h46 x hx,
+      h47 b (fun c hc => h'.1.1.1 c (Or.inl hc)), h47 x (fun c hc => h'.1.1.1 c (Or.inr hc)),
       upper_rng (fun c hc => ?_), upper_rng (fun c hc => ?_), by rw [upper_length]; omega, by rw [upper_length]; omega, ?_,
       by rw [hs]; simp; omega⟩
     rotate_left 2
@@ -339,6 +350,9 @@ theorem fresh_name {s B X : Bytes} (np : NameParts s B X) {e : Bytes} (h11 : e.t
     · rw [h, splitOnce_append_sep X np.noDotB]
   exact ⟨hsplit, hname, hkey, fun h => np.noDotB (mem_trimEnd h), fun h => np.noDotX (mem_trimEnd h),
     by rw [hget0]; omega, by rw [hget0]; omega, by rw [hget0]; exact hc0⟩
+
+theorem fresh_noSlash {s B X : Bytes} (np : NameParts s B X) : 47 ∉ trimEnd B ∧ 47 ∉ trimEnd X :=
+  ⟨fun h => np.noSlashB (mem_trimEnd h), fun h => np.noSlashX (mem_trimEnd h)⟩
 
 /-- a valid name is a root-level argument: it contains no slash and no wildcard -/
 theorem rootArg_of_parts {s B X : Bytes} (np : NameParts s B X) : RootArg s := by
